@@ -49,9 +49,39 @@ def size_table(fx):
     return fx._sizes
 
 
-def mainline(b, start=0):
+def error_exit(b, bb, depth=0, seen=None):
+    """every path from bb reaches the return without reading anything and with an Err result: the arm of a validity check
+    (`match magic { MAGIC => .., _ => return Err(BadVersion) }`)"""
+    seen = seen or set()
+    if depth > 8 or bb in seen:
+        return False
+    seen = seen | {bb}
+    t = b.term(bb)
+    is_err = any(s["k"] == "assign" and s["p"]["l"] == 0 and s["rv"]["k"] == "agg" and s["rv"].get("vname") == "Err" for s in b.stmts(bb))
+    if t["k"] == "call":
+        p = t["callee"].get("path") or ""
+        if "ReadCtxt" in p or "ReadScope" in p:
+            return False
+        if t["dest"]["l"] == 0 and p.endswith("FromResidual::from_residual"):
+            is_err = True
+    if t["k"] == "return":
+        return is_err or depth > 0 and None   # decided by the caller chain below
+    succ = [x for x in b.succs(bb)]
+    if not succ:
+        return False
+    res = []
+    for sx in succ:
+        r = error_exit(b, sx, depth + 1, seen)
+        if r is False:
+            return False
+        res.append(r)
+    return True if (is_err or any(r is True for r in res)) else None
+
+
+def mainline(b, start=0, through_checks=False):
     """blocks along the success path: follows goto/call/assert/drop targets and the Continue arm of
-    every `?`. Stops at any other switch. Returns (list of blocks, reason the walk stopped)."""
+    every `?`. Stops at any other switch - unless through_checks is set and all arms but one are error exits (a version or
+    magic number check), in which case the walk goes on along the remaining arm. Returns (list of blocks, reason the walk stopped)."""
     out = []
     bb = start
     seen = set()
@@ -79,6 +109,15 @@ def mainline(b, start=0):
                     if nxt:
                         bb = nxt[0]
                         continue
+            if through_checks:
+                tgts = []
+                for tg in [x for _, x in t["arms"]] + [t["otherwise"]]:
+                    if tg not in tgts and b.term(tg)["k"] != "unreachable":
+                        tgts.append(tg)
+                live = [tg for tg in tgts if error_exit(b, tg) is not True]
+                if len(live) == 1 and len(tgts) > 1:
+                    bb = live[0]
+                    continue
             return out, "branch at bb%d (%s:%s)" % (bb, b.file, t.get("line", "?"))
         return out, k
 
@@ -91,9 +130,9 @@ def field_of(t):
     return None
 
 
-def reader_items(fx, b, self_ty=None, start=0):
+def reader_items(fx, b, self_ty=None, start=0, through_checks=False):
     sizes = size_table(fx)
-    blocks, why = mainline(b, start)
+    blocks, why = mainline(b, start, through_checks)
     items = []
     for bb in blocks:
         t = b.term(bb)
